@@ -187,7 +187,7 @@ static void run_script(const J &script, FILE *out) {
                 w.knum("ret", rv).knum("hook_calls", hd.seen).key("vers").arr(); for (int q = 0; q < 12; ++q) w.num(hd.vers[q]); w.end_arr().key("loaded"); state(w, fresh); }
             else if (k == "load" || k == "loadraw") { std::string text;
                 if (k == "load") { text = header(); for (auto &l : op["lines"].a) text += l.s + "\n"; w.key("lines").arr(); for (auto &l : op["lines"].a) w.str(l.s); w.end_arr(); }
-                else { text = op["text"].s; w.kstr("text", text); }
+                else { text = op["text"].s; w.kstr("text", text).kbool("any_result", op.has("any_result") && op["any_result"].b); }
                 App fresh; FlushBuf tb(text.size() + 1); memcpy(tb.p, text.c_str(), text.size() + 1);
                 int rv = load_from_file((const char *)tb.p, App::ports, &fresh, APPNAME, APPVER);
                 w.knum("ret", rv).key("loaded"); state(w, fresh); }
